@@ -99,6 +99,12 @@ CLAIMED = {
     "C08": ("Coq proof (symbol-by-symbol enumeration with Pareto pruning of partial assignments on a criteria vector emits, after Pareto filtering, exactly the objective vectors of the Pareto-filtered exhaustive enumeration - any number of symbols, prefix-dependent candidates, any validity and objectives - under soundness of the criteria; a boolean check decides that hypothesis on concrete spaces; unsound criteria refuted by witness) + the real _make_tile_shapes table against exhaustive enumeration of every perfect assignment of every captured template",
             "C08_pruned_front_exact, C08_pruned_subset, C08_checked_instance, C08_unsound_criteria_refuted; for every pmapping template of real mapper runs on random single-Einsum specs (bounds up to 36, up to 5 symbols, finite buffers) the Pareto front of the emitted table equals the front over ALL valid perfect assignments (validity and objectives from the template's own formulas, cross-checked against the python twin; formulas tied to concrete evaluation by C07). PARTIAL: the soundness of the real criteria (built from C09's verdicts inside get_tile_shape_choices) is the theorem's hypothesis, tested not proved; single Einsum, temporal loops and memories.",
             "Coq kernel; criteria soundness is a hypothesis, exercised by the correspondence"),
+    "C13": ("Coq proof (abstract join algebra: for ANY key-compatibility function, ANY monotone combination of vectors, ANY downward-closed capacity test and ANY number of tables the step-by-step join with per-key Pareto pruning of every table and every partial result emits only exhaustive combinations and covers each of them key by key, hence has the same front; pair semantics; hypothesis-free instance) + the real table join against combinations of single pmappings",
+            "C13_staged_is_exhaustive, C13_pair, C13_instance; on real per-Einsum pmapping tables of random 2-3 Einsum chains (fused and unfused, tight buffers, tensors living across Einsums, max_fused_loops variations) every front row of the table-level join is reproduced by joining exactly its constituent single pmappings with objectives equal to the sums of the parts, and no combination of single pmappings (all of them when few, a random sample otherwise) beats the returned front. PARTIAL: that Compatibility.merge_next / PmappingDataframe.merge_next form a compatibility function and a monotone combination is the theorem's hypothesis; the pair primitives are shared by both sides of the correspondence (reservation arithmetic of a single pair is checked only through C06 for one Einsum); join orders other than workload order are not explored.",
+            "Coq kernel; pair-merge primitives trusted (shared by both sides)"),
+    "C14": ("Coq proof (over the same join algebra: optimality-threshold row filtering on an achievable solution keeps the objective front for any number of tables; a relaxed-capacity join whose result is valid has exactly the valid front, and the validity check / retry is necessary (witness); a capacity test that is never decisive can be skipped) + the public staged join against one exact join of the current source with every acceleration off",
+            "C14_threshold_filter_exact, C14_relaxed_join_exact, C14_retry_needed, C14_untracked_memory, C14_instance; on real pmapping tables of random 2-3 Einsum chains under five metric sets (with and without RESOURCE_USAGE, EDP) the front of join_pmappings (dirty rounds, thresholds, optimality filter, lookahead, untracked memories, combined reservations) equals the front of ONE direct join with RESOURCE_USAGE tracking of every memory, reservations not combined and lookahead switched off by an in-process source transformation. PARTIAL: that the real thresholds come from achievable solutions and that untracked memories are never decisive are hypotheses, tested not proved; the oversubscription-retry path is rarely reached by the generator (counted in the evidence).",
+            "Coq kernel; exact reference = current join_pmappings source run once without accelerations"),
 }
 
 PENDING_REASON = "check not built yet in this round (planned, see DESIGN.md section 6); not claimed until its proof and correspondence exist"
